@@ -186,6 +186,21 @@ pub fn run(cfg: &RunCfg) -> CheckReport {
         return rep;
     }
     super::large::run_part(cfg, &mut rep, &ALGS, &|a| if a == Algorithm::Lcs { 300 } else { usize::MAX }, check_large);
+    if rep.has_violation() {
+        return rep;
+    }
+    let big = super::large::lcs_big();
+    let ex = explore(cfg, big.len(), |shard, acc| {
+        let inp = &big[shard];
+        match check_large(Algorithm::Lcs, inp) {
+            Ok((nt, tr, fp)) => {
+                acc.sample(super::large::case_json(Algorithm::Lcs, inp, cfg.seed));
+                acc.ok(nt, tr, fp);
+            }
+            Err(e) => acc.violation(|| (super::large::case_json(Algorithm::Lcs, inp, cfg.seed), format!("{}: {}", inp.name, e))),
+        }
+    });
+    rep.part("lcs-beyond-2^20-cells", json!({"inputs": big.iter().map(|i| i.name.clone()).collect::<Vec<_>>()}), ex);
     rep
 }
 
